@@ -349,6 +349,41 @@ class CFG:
         rec(start, [], {}, facts or Facts())
         return out
 
+    def must_facts(self, start: int = None, init: 'Facts' = None, start_label: str = None) -> Dict[int, 'Facts']:
+        """Forward must-analysis: facts known on EVERY path from `start` to each node (join =
+        intersection).  Sound where path enumeration would explode; loses flag correlations at
+        merges.  State at a node = facts on entry to the node."""
+        start = self.entry if start is None else start
+        state: Dict[int, Facts] = {start: init or Facts()}
+        work = [start]
+        first = True
+        while work:
+            nid = work.pop()
+            node = self.nodes[nid]
+            fin = state[nid]
+            fx = fin.after_stmt(node.ast) if node.kind == 'stmt' else fin
+            for (l, y) in self.succ[nid]:
+                if first and start_label is not None and l != start_label:
+                    continue
+                f2 = fx
+                if node.kind == 'test' and l in ('T', 'F'):
+                    f2 = fx.assume(node.ast, l == 'T')
+                    if f2 is None:
+                        continue
+                elif node.kind == 'iter' and l in ('loop', 'done'):
+                    f2 = fx.after_iter(node.ast, l == 'loop')
+                elif l == 'exc':
+                    f2 = fin          # the statement did not complete
+                if y in (self.exit, self.raise_exit):
+                    continue
+                old = state.get(y)
+                new = f2 if old is None else old.meet(f2)
+                if old is None or not old.same(new):
+                    state[y] = new
+                    work.append(y)
+            first = False
+        return state
+
     def _is_while(self, nid):
         n = self.nodes[nid]
         if n.kind != 'test':
@@ -459,6 +494,23 @@ class Facts:
 
     def copy(self):
         return Facts(dict(self.d), list(self.clauses), dict(self.defs))
+
+    def meet(self, o: 'Facts') -> 'Facts':
+        d = {k: v for k, v in self.d.items() if o.d.get(k) is v}
+        oc = set(o.clauses)
+        cl = [c for c in self.clauses if c in oc]
+        # a unit fact on one side satisfies a clause of the other side
+        for c in o.clauses:
+            if c not in cl and any(self.d.get(a) is t for (a, t) in c):
+                cl.append(c)
+        for c in self.clauses:
+            if c not in cl and any(o.d.get(a) is t for (a, t) in c):
+                cl.append(c)
+        df = {k: v for k, v in self.defs.items() if k in o.defs and unparse(o.defs[k]) == unparse(v)}
+        return Facts(d, cl, df)
+
+    def same(self, o: 'Facts') -> bool:
+        return self.d == o.d and set(self.clauses) == set(o.clauses) and set(self.defs) == set(o.defs)
 
     def known(self, expr) -> Optional[bool]:
         if isinstance(expr, str):
